@@ -208,10 +208,10 @@ func TestReplay(t *testing.T) { core.RunReplay(t, ID, &Case{}, Check) }
 // sizes that are multiples of 2^levels and all tile origins inside the first 64x64 code-block.
 func TestManyTiles(t *testing.T) {
 	g := rapid.Custom(func(t *rapid.T) *Case {
-		lv := rapid.IntRange(0, 2).Draw(t, "levels")
+		lv := rapid.SampledFrom([]int{0, 0, 0, 1, 1, 1, 2}).Draw(t, "levels") // (2 levels: 4x4 tiles, 256 tiles at most)
 		m := 1 << uint(lv)
 		side := func(label string) (ts, n int) {
-			ts = m * rapid.IntRange(1, max(1, 4/m)).Draw(t, label+"k")
+			ts = m * rapid.IntRange(1, max(1, 3/m)).Draw(t, label+"k")
 			maxTiles := (63 / ts) + 1 // (tiles-1)*ts <= 63
 			tiles := rapid.IntRange(min(12, maxTiles), maxTiles).Draw(t, label+"tiles")
 			n = tiles*ts - rapid.IntRange(0, ts-1).Draw(t, label+"cut")
